@@ -135,6 +135,7 @@ func VfC10_RoundTrip() {
 	if err != nil {
 		return
 	}
+	nd.Assert(dec.depth == 0, "the decoder carries no nesting state from one message to the next (so any number of messages in a row decode alike)")
 	nd.Assert(vfSame(got, v), "decode(encode(v)) == v, null and empty kept apart")
 	nd.Assert(got.Equal(v) && v.Equal(got), "decode(encode(v)) Equal v")
 	consumed := rd.pos - dec.br.buffered()
@@ -157,6 +158,9 @@ func VfC10_Canonical() {
 	dec := newDecoder(rd, 32)
 	nd.PanicLabel("codec")
 	v, err := dec.Decode()
+	if err == nil {
+		nd.Assert(dec.depth == 0, "the decoder carries no nesting state from one message to the next (so any number of messages in a row decode alike)")
+	}
 	if err != nil || rd.pos-dec.br.buffered() != l {
 		return
 	}
